@@ -153,10 +153,11 @@ func forwardCheckPoint(ctx context.Context, nodeKey string) context.Context {
 
 func newCheckPointer(
 	inputPairs, outputPairs map[string]streamConvertPair,
+	mappedEdges map[string]map[string]bool,
 	store CheckPointStore,
 ) *checkPointer {
 	return &checkPointer{
-		sc:    newStreamConverter(inputPairs, outputPairs),
+		sc:    newStreamConverter(inputPairs, outputPairs, mappedEdges),
 		store: store,
 	}
 }
@@ -193,9 +194,10 @@ func (c *checkPointer) set(ctx context.Context, id string, cp *checkpoint) error
 
 // convertCheckPoint if value in checkpoint is streamReader, convert it to non-stream
 func (c *checkPointer) convertCheckPoint(cp *checkpoint, isStream bool) (err error) {
-	for _, ch := range cp.Channels {
+	for receiver, ch := range cp.Channels {
+		receiver := receiver
 		err = ch.convertValues(func(m map[string]any) error {
-			return c.sc.convertOutputs(isStream, m)
+			return c.sc.convertOutputs(isStream, receiver, m)
 		})
 		if err != nil {
 			return err
@@ -212,9 +214,10 @@ func (c *checkPointer) convertCheckPoint(cp *checkpoint, isStream bool) (err err
 
 // convertCheckPoint convert values in checkpoint to streamReader if needed
 func (c *checkPointer) restoreCheckPoint(cp *checkpoint, isStream bool) (err error) {
-	for _, ch := range cp.Channels {
+	for receiver, ch := range cp.Channels {
+		receiver := receiver
 		err = ch.convertValues(func(m map[string]any) error {
-			return c.sc.restoreOutputs(isStream, m)
+			return c.sc.restoreOutputs(isStream, receiver, m)
 		})
 		if err != nil {
 			return err
@@ -229,15 +232,36 @@ func (c *checkPointer) restoreCheckPoint(cp *checkpoint, isStream bool) (err err
 	return nil
 }
 
-func newStreamConverter(inputPairs, outputPairs map[string]streamConvertPair) *streamConverter {
+func newStreamConverter(inputPairs, outputPairs map[string]streamConvertPair, mappedEdges map[string]map[string]bool) *streamConverter {
 	return &streamConverter{
 		inputPairs:  inputPairs,
 		outputPairs: outputPairs,
+		mappedEdges: mappedEdges,
 	}
 }
 
 type streamConverter struct {
 	inputPairs, outputPairs map[string]streamConvertPair
+	// mappedEdges[receiver][sender]: the edge carries field mappings, so what waits in the receiver's channel for
+	// that sender is the mapped form (map[string]any), not a value of the sender's output type
+	mappedEdges map[string]map[string]bool
+}
+
+// channelPairs returns the pairs for the values pending in one receiver's channel, keyed by sender: a channel holds
+// what the edge handlers made of the sender's output.
+func (s *streamConverter) channelPairs(receiver string) map[string]streamConvertPair {
+	mapped := s.mappedEdges[receiver]
+	if len(mapped) == 0 {
+		return s.outputPairs
+	}
+	pairs := make(map[string]streamConvertPair, len(s.outputPairs))
+	for sender, pair := range s.outputPairs {
+		pairs[sender] = pair
+	}
+	for sender := range mapped {
+		pairs[sender] = defaultStreamConvertPair[map[string]any]()
+	}
+	return pairs
 }
 
 func (s *streamConverter) convertInputs(isStream bool, values map[string]any) error {
@@ -248,12 +272,12 @@ func (s *streamConverter) restoreInputs(isStream bool, values map[string]any) er
 	return restore(values, s.inputPairs, isStream)
 }
 
-func (s *streamConverter) convertOutputs(isStream bool, values map[string]any) error {
-	return convert(values, s.outputPairs, isStream)
+func (s *streamConverter) convertOutputs(isStream bool, receiver string, values map[string]any) error {
+	return convert(values, s.channelPairs(receiver), isStream)
 }
 
-func (s *streamConverter) restoreOutputs(isStream bool, values map[string]any) error {
-	return restore(values, s.outputPairs, isStream)
+func (s *streamConverter) restoreOutputs(isStream bool, receiver string, values map[string]any) error {
+	return restore(values, s.channelPairs(receiver), isStream)
 }
 
 func convert(values map[string]any, convPairs map[string]streamConvertPair, isStream bool) error {
